@@ -120,7 +120,7 @@ func truncate(s *slip.Scope, f slip.Object, args slip.List, depth int) slip.Valu
 		_ = zp.Mul(&zb, (*big.Rat)(div.(*slip.Ratio)))
 		_ = zr.Sub((*big.Rat)(tn), &zp)
 		q = (*slip.Bignum)(&bi)
-		r = (*slip.Ratio)(&zr)
+		r = ratReduce(&zr)
 		q = bigToInteger((*big.Int)(q.(*slip.Bignum)))
 	case slip.Complex:
 		slip.TypePanic(s, depth, "number", tn, "real")
